@@ -187,7 +187,10 @@ def _apply_contract_tail(ctx, c, fn, target, ns, ghosts):
     elif c.pure is not None:
         result = pure_result(ctx, c, ns)
     elif c.returns is not None:
-        result = c.returns.make(ctx, ctx.fresh_name("ret@%s" % c.short))
+        rname = ctx.fresh_name("ret@%s" % c.short)
+        result = c.returns.make(ctx, rname)
+        if c.proof == "table":
+            ctx.summary_returns.append((c.label, rname, c.returns))
     ns3 = dict(ns, result=result, old=old)
     ctx.applied[fn] = (c, ns3)
     for nm, f in c.ensures.items():
@@ -661,4 +664,12 @@ def make_witness(ctx, c, ob):
         except Exception as e:  # noqa
             w["state"][k] = {"t": "error", "v": repr(e)}
     w["exc"] = ob.info.get("exc") if ob.info else None
+    # values the counterexample gives to the results of ASSUMED callee summaries, in call order: the
+    # native replay stubs those callees with exactly these values
+    w["stubs"] = []
+    for label, rname, shape in getattr(ctx, "summary_returns", []):
+        try:
+            w["stubs"].append([label, shape.concretize(vals, rname, None)])
+        except Exception as e:  # noqa
+            w["stubs"].append([label, {"t": "error", "v": repr(e)}])
     return w
